@@ -39,6 +39,9 @@ Definition slot_key (s : slot) : ext := fst (slot_entry s).
 (* everything the search may return: k fills and every case exactly once *)
 Definition universe (k : nat) (cases : list C) : list slot :=
   repeat None k ++ map Some (combine (seq 0 (length cases)) cases).
+(* the case numbers of a list of slots *)
+Definition slot_cases (T : list slot) : list nat :=
+  flat_map (fun s => match s with Some (i, _) => [i] | None => [] end) T.
 End Slots.
 
 (* brute-force distance of a query to every case, same projection on both sides *)
